@@ -14,7 +14,15 @@
        offset of `function` (= start of the statement AND of the swc `Function`
        node), `pb` the `{` of the body;
      - `SArrowStmt p pb body`: the expression statement `() => {...};`; `p` is
-       the start of the statement AND of the arrow expression.
+       the start of the statement AND of the arrow expression;
+     - `SGetterStmt p gp pb body`: the expression statement `({get a() {...}});`; `p` is
+       the offset of `(`, `gp` the offset of `get` (the swc `GetterProp` node), `pb` the
+       `{` of the getter's body;
+     - `SForHead p g fp pb hbody b`: `for (const [k = FN] of o) b` (or `in`), a for-in/of
+       loop whose HEAD contains a function-like as the default value of a binding
+       pattern: FN = `() => {hbody}` (`g = false`, `fp` = start of the arrow) or
+       FN = `{get a() {hbody}}` (`g = true`, `fp` = offset of `get`); `pb` the `{` of
+       the function body.
 
    Statement lists and switch cases are separate mutual inductive types (rather
    than `list`) so that `Scheme` gives the induction principles used in the
@@ -41,6 +49,7 @@ Inductive stmt :=
 | SVar (p : N) (is_var : bool) (init : option expr)   (* `var v;` `var v = e;` `let v = e;` *)
 | SFnDecl (p : N) (name : N) (pb : N) (body : stmts)
 | SArrowStmt (p : N) (pb : N) (body : stmts)
+| SGetterStmt (p : N) (gp : N) (pb : N) (body : stmts)       (* `({get a() {...}});` *)
 | SRet (p : N) (arg : option expr)
 | SThrow (p : N) (arg : expr)
 | SBrk (p : N) (l : option N)
@@ -53,6 +62,7 @@ Inductive stmt :=
 | SFor (p : N) (c : option cond) (b : stmt)            (* `for(;c;) b` / `for(;;) b` *)
 | SForIn (p : N) (b : stmt)                            (* `for (var k in o) b` *)
 | SForOf (p : N) (b : stmt)                            (* `for (var k of o) b` *)
+| SForHead (p : N) (g : bool) (fp : N) (pb : N) (hbody : stmts) (b : stmt)   (* `for (const [k = FN] of o) b` *)
 | SSwitch (p : N) (cs : cases)                         (* `switch (d) { ... }` *)
 | SLabel (p : N) (l : N) (b : stmt)
 | STry (p : N) (bp : N) (blk : stmts) (h : option (N * N)) (hb : stmts) (f : option N) (fb : stmts)
@@ -73,9 +83,9 @@ Combined Scheme stmt_mutind from stmt_mind, stmts_mind, cases_mind.
 
 Definition pos (s : stmt) : N :=
   match s with
-  | SExpr p _ | SEmpty p | SVar p _ _ | SFnDecl p _ _ _ | SArrowStmt p _ _ | SRet p _ | SThrow p _
+  | SExpr p _ | SEmpty p | SVar p _ _ | SFnDecl p _ _ _ | SArrowStmt p _ _ | SGetterStmt p _ _ _ | SRet p _ | SThrow p _
   | SBrk p _ | SCont p _ | SBlock p _ | SIf p _ _ | SIfElse p _ _ _ | SWhile p _ _ | SDoWhile p _ _
-  | SFor p _ _ | SForIn p _ | SForOf p _ | SSwitch p _ | SLabel p _ _ | STry p _ _ _ _ _ _ => p
+  | SFor p _ _ | SForIn p _ | SForOf p _ | SForHead p _ _ _ _ _ | SSwitch p _ | SLabel p _ _ | STry p _ _ _ _ _ _ => p
   end.
 
 Fixpoint stmts_to_list (l : stmts) : list stmt :=
@@ -97,6 +107,8 @@ Fixpoint keys (s : stmt) : list N :=
   match s with
   | SExpr p _ | SEmpty p | SVar p _ _ | SRet p _ | SThrow p _ | SBrk p _ | SCont p _ => [p]
   | SFnDecl p _ pb b | SArrowStmt p pb b => p :: pb :: keys_l b
+  | SGetterStmt p gp pb b => p :: gp :: pb :: keys_l b
+  | SForHead p _ fp pb hb b => p :: (fp :: pb :: keys_l hb) ++ keys b
   | SBlock p b => p :: keys_l b
   | SIf p _ a => p :: keys a
   | SIfElse p _ a b => p :: keys a ++ keys b
@@ -112,13 +124,37 @@ with keys_l (l : stmts) : list N :=
 with keys_c (cs : cases) : list N :=
   match cs with CNil => [] | CCons cp _ _ b r => cp :: keys_l b ++ keys_c r end.
 
+(* the keys that a RULE can look up in the result (`ControlFlow::meta`): every statement offset
+   (no-unreachable, no-fallthrough), the `{` of every function / getter body (getter-return), plus the
+   other block and `case` / `catch` offsets; i.e. all of `keys` except the start offsets of function-likes
+   in expression position (`gp` of `({get a(){}})`, `fp` of a loop head), which only the analyzer writes *)
+Fixpoint qkeys (s : stmt) : list N :=
+  match s with
+  | SExpr p _ | SEmpty p | SVar p _ _ | SRet p _ | SThrow p _ | SBrk p _ | SCont p _ => [p]
+  | SFnDecl p _ pb b | SArrowStmt p pb b | SGetterStmt p _ pb b => p :: pb :: qkeys_l b
+  | SForHead p _ _ pb hb b => p :: (pb :: qkeys_l hb) ++ qkeys b
+  | SBlock p b => p :: qkeys_l b
+  | SIf p _ a => p :: qkeys a
+  | SIfElse p _ a b => p :: qkeys a ++ qkeys b
+  | SWhile p _ b | SDoWhile p b _ | SFor p _ b | SForIn p b | SForOf p b | SLabel p _ b => p :: qkeys b
+  | SSwitch p cs => p :: qkeys_c cs
+  | STry p bp blk h hb f fb =>
+      p :: bp :: qkeys_l blk
+        ++ match h with Some (cp, hbp) => cp :: hbp :: qkeys_l hb | None => [] end
+        ++ match f with Some fp => fp :: qkeys_l fb | None => [] end
+  end
+with qkeys_l (l : stmts) : list N :=
+  match l with SNil => [] | SCons s r => qkeys s ++ qkeys_l r end
+with qkeys_c (cs : cases) : list N :=
+  match cs with CNil => [] | CCons cp _ _ b r => cp :: qkeys_l b ++ qkeys_c r end.
+
 Fixpoint memN (x : N) (l : list N) : bool :=
   match l with [] => false | y :: r => N.eqb x y || memN x r end.
 Fixpoint nodupb (l : list N) : bool :=
   match l with [] => true | x :: r => negb (memN x r) && nodupb r end.
 
 Definition is_loop (s : stmt) : bool :=
-  match s with SWhile _ _ _ | SDoWhile _ _ _ | SFor _ _ _ | SForIn _ _ | SForOf _ _ => true | _ => false end.
+  match s with SWhile _ _ _ | SDoWhile _ _ _ | SFor _ _ _ | SForIn _ _ | SForOf _ _ | SForHead _ _ _ _ _ _ => true | _ => false end.
 Definition is_fndecl (s : stmt) : bool := match s with SFnDecl _ _ _ _ => true | _ => false end.
 Definition cond_ok (c : cond) : bool := match c with COpaque ELit => false | _ => true end.
 
@@ -136,7 +172,7 @@ Definition j_in_label (j : jctx) (l : N) :=
 Fixpoint jump_ok (j : jctx) (mine : list N) (s : stmt) : bool :=
   match s with
   | SExpr _ _ | SEmpty _ | SVar _ _ _ | SRet _ _ | SThrow _ _ => true
-  | SFnDecl _ _ _ b | SArrowStmt _ _ b => jump_ok_l jtop b
+  | SFnDecl _ _ _ b | SArrowStmt _ _ b | SGetterStmt _ _ _ b => jump_ok_l jtop b
   | SBrk _ None => j_brk j
   | SBrk _ (Some l) => memN l (j_labels j)
   | SCont _ None => j_cont j
@@ -147,6 +183,7 @@ Fixpoint jump_ok (j : jctx) (mine : list N) (s : stmt) : bool :=
   | SWhile _ c b | SDoWhile _ b c => cond_ok c && negb (is_fndecl b) && jump_ok (j_in_loop j mine) [] b
   | SFor _ c b => match c with Some c => cond_ok c | None => true end && negb (is_fndecl b) && jump_ok (j_in_loop j mine) [] b
   | SForIn _ b | SForOf _ b => negb (is_fndecl b) && jump_ok (j_in_loop j mine) [] b
+  | SForHead _ _ _ _ hb b => jump_ok_l jtop hb && negb (is_fndecl b) && jump_ok (j_in_loop j mine) [] b
   | SSwitch _ cs => jump_ok_c (j_in_switch j) cs
   | SLabel _ l b => negb (memN l (j_labels j)) && negb (is_fndecl b) && jump_ok (j_in_label j l) (l :: mine) b
   | STry _ _ blk h hb f fb =>
@@ -160,11 +197,13 @@ with jump_ok_l (j : jctx) (l : stmts) : bool :=
 with jump_ok_c (j : jctx) (cs : cases) : bool :=
   match cs with CNil => true | CCons _ _ _ b r => jump_ok_l j b && jump_ok_c j r end.
 
-(* no statement starts with a function (function declaration / arrow-expression statement): the
-   programs on which the function-start key collision (known finding, class C) cannot occur *)
+(* no statement starts with or contains a function-like in expression position (function declaration /
+   arrow-expression statement / object-literal getter statement / function-like in a loop head): the
+   programs on which the end of a function is never recorded under the function's start key (known
+   finding, class C: for a statement that starts with the function this is the statement's own key) *)
 Fixpoint nofn (s : stmt) : bool :=
   match s with
-  | SFnDecl _ _ _ _ | SArrowStmt _ _ _ => false
+  | SFnDecl _ _ _ _ | SArrowStmt _ _ _ | SGetterStmt _ _ _ _ | SForHead _ _ _ _ _ _ => false
   | SBlock _ b => nofn_l b
   | SIf _ _ a => nofn a
   | SIfElse _ _ a b => nofn a && nofn b
